@@ -137,6 +137,12 @@ BoundaryVals ==
    [k |-> "list", e |-> <<PyList(<<PySmall(1)>>), PyList(<<PySmall(1)>>)>>, sh |-> TRUE],     \* one list object, twice
    [k |-> "list", e |-> <<D(<<KV(PyStr(U("k")), PyList(<<>>))>>), D(<<KV(PyStr(U("k")), PyList(<<>>))>>)>>, sh |-> TRUE],
    NestList(PySmall(1), 30), NestMixed(PyStr(U("x")), 30), NestMixed(PyList(<<>>), 7)}
+\* keys that are ordinary JSON text but mean something to a script (prototype, inherited methods, array length), holding
+\* every kind of value (a script-side "__proto__" distinguishes null / object / anything else), next to a second key and nested
+SpecialNames == {"__proto__", "constructor", "prototype", "toString", "valueOf", "hasOwnProperty", "length", "get", "set"}
+SpecialHeld == {PyNone, PySmall(7), D(<<KV(PyStr(U("admin")), PyBool(TRUE))>>), PyList(<<PySmall(1), PySmall(2)>>)}
+SpecialKeyVals == {D(<<KV(PyStr(U(sn)), x), KV(PyStr(U("name")), PyStr(U("guest")))>>) : sn \in SpecialNames, x \in SpecialHeld}
+                  \cup {PyList(<<D(<<KV(PyStr(U(sn)), x)>>)>>) : sn \in SpecialNames, x \in SpecialHeld}
 RoundTrip(v) == <<ESet("a", v), EView("a"), EGet("a"), EName("a"), EMutRet("a"), EGet("a"), EName("a"), EMutPassed("a"), EGet("a"), EName("a")>>
 
 \* script results
@@ -164,7 +170,7 @@ Rets == {PyNone, PyBool(TRUE), PyBool(FALSE), PySmall(0), PySmall(7), I2p53p1, P
          PyStr(<<>>), PyStr(Smile), PyList(<<PySmall(1), PyList(<<>>)>>), D(<<KV(PyStr(U("k")), PySmall(1))>>)}
 FormOK(form, args) == form = "bind" => Len(args) >= 1          \* h.bind(null, a1)(a2, ...)
 CallTraces == {<<ECall(f, a, r)>> : f \in CallForms, a \in ArgVecs, r \in (IF Quick THEN {PyNone, PySmall(7), PyStr(Smile), PyList(<<PySmall(1), PyList(<<>>)>>)} ELSE Rets)}
-BoundaryTraces == {RoundTrip(v) : v \in BoundaryVals} \cup ExprTraces \cup {t \in CallTraces : FormOK(t[1].form, t[1].args)}
+BoundaryTraces == {RoundTrip(v) : v \in BoundaryVals \cup SpecialKeyVals} \cup ExprTraces \cup {t \in CallTraces : FormOK(t[1].form, t[1].args)}
 
 EnumBInit == /\ ph = "enumB" /\ cur \in BoundaryTraces /\ ehist = <<>> /\ est = <<>> /\ eheld = <<>> /\ rec_i = 0
              /\ PrintT(ToJson([t |-> cur]))
